@@ -35,6 +35,29 @@ JudgeCfg(M, dYspec, c, vois) ==
     LET dY == IF M.cyclic THEN c.full ELSE dYspec
     IN [full |-> FullOK(M, dYspec, c.full), blocks |-> BlocksOK(M, dY, c, vois)]
 
+\* C02: adjoint identity <w, A v> = <A^T w, v> evaluated exactly on observed vectors
+AdjOK(op) == RDot(op.w, op.av) = RDot(op.atw, op.v)
+
+\* C02: public Jacobian-vector products against the exact Jacobian. jv: [of, wrt, mode, seed, res]
+\* fwd: res (per response, concatenated) = SUM_wrt Block * seed;   rev: res (per design variable) = SUM_of Block^T * seed
+RECURSIVE SumVecs(_)
+SumVecs(vs) == IF Len(vs) = 1 THEN vs[1] ELSE VAdd(vs[1], SumVecs(Tail(vs)))
+MatVec(m, x) == [r \in DOMAIN m |-> RDot(m[r], x)]
+MatTVec(m, x) == [c \in DOMAIN m[1] |-> RDot([r \in DOMAIN m |-> m[r][c]], x)]
+JvOK(M, dY, j, vois) ==
+    IF j.mode = "fwd"
+    THEN \A a \in 1..Len(j.of) :
+            j.res[a] = SumVecs([b \in 1..Len(j.wrt) |-> MatVec(Block(M, dY, vois.of[j.of[a]], vois.wrt[j.wrt[b]]), j.seed[b])])
+    ELSE \A b \in 1..Len(j.wrt) :
+            j.res[b] = SumVecs([a \in 1..Len(j.of) |-> MatTVec(Block(M, dY, vois.of[j.of[a]], vois.wrt[j.wrt[b]]), j.seed[a])])
+
+\* C24: a linear solve for a seed must have executed every non-independent component that is relevant to it
+\* (over-execution is harmless; under-execution is the unsound direction)
+ToSet(q) == {q[k] : k \in 1..Len(q)}
+RelOK(M, r) ==
+    LET need == {k \in RelevantComps(M, r.mode, r.seed, ToSet(r.others)) : M.comps[k].kind # "ivc"}
+    IN need \subseteq ToSet(r.executed)
+
 Judge(c) ==
     LET M == c.M
         dYspec == IF M.cyclic THEN <<>> ELSE TotalAll(M)
@@ -44,6 +67,9 @@ Judge(c) ==
                      [out |-> IF c.runs[k].fix THEN OutOK(M, c.runs[k].out) ELSE TRUE,
                       inp |-> InOK(M, c.runs[k].out, c.runs[k].inp, c.runs[k].chk)]],
         cfgs |-> [k \in 1..Len(c.cfgs) |-> JudgeCfg(M, dYspec, c.cfgs[k], c.vois)],
+        adj |-> [k \in 1..Len(c.adj) |-> AdjOK(c.adj[k])],
+        rel |-> [k \in 1..Len(c.rel) |-> RelOK(M, c.rel[k])],
+        jv |-> IF M.cyclic THEN <<>> ELSE [k \in 1..Len(c.jv) |-> JvOK(M, dYspec, c.jv[k], c.vois)],
         \* the specification's source positions of every input (used by the harness to judge intermediate,
         \* non-rational states of a run in floating point)
         pos |-> [i \in 1..Len(M.ins) |-> ConnPos(M, i)]]
